@@ -2,13 +2,15 @@
 re-extracted from the C sources on every check (see tools/gen_params.py).
 
   hash_m, hash_r, hash_seed      constants of hash_data (src/Hash.c)
-  hash_data_shape_ok             loop body, tail switch and finalisation still have the modelled shape
+  hash_data_shape_ok             block loop and finalisation still have the modelled shape
+  hash_tail_shape                0: fall-through switch over size & 7;  1: loop building one little-endian word
   int_hash_shape_ok              Int_Hash returns (uint64_t)c_int(self)
   float_hash_normalises_zero     true: Float_Hash maps both zeros to +0.0 (repaired); false: raw bits (pinned)
   hash_float_cmp_shape_ok             Float_Cmp is sign of the double difference
   table_cmp_by_lookup            true: Table_Cmp first compares by lookup (repaired); false: slot-order walk only
   xor_fold_shape_ok              Array/List/Tuple/Table/Tree_Hash XOR the hashes of all elements
-  memswap_shape_ok               memswap swaps bytes 0..s-1; swap calls it with size(type) for objects of one type
+  memswap_plan                   memswap's loops as a list of (tag, width) steps (see HashModel.step_indices)
+  swap_shape_ok                  swap calls memswap with size(type) for two objects of one type
   copy_shape_ok                  copy = the type's Copy instance, else assign(alloc(type_of(self)), self)
 """
 import re
@@ -31,30 +33,51 @@ def generate(repo, emit, src, func_body):
     shape = [
         'constuint8_t*end=d+(size&~7ULL);',
         'while(d!=end){uint64_tk;memcpy(&k,d,sizeof(uint64_t));d+=sizeof(uint64_t);k*=m;k^=k>>r;k*=m;h^=k;h*=m;}',
-        'switch(size&7){case7:h^=(uint64_t)(d[6])<<48;case6:h^=(uint64_t)(d[5])<<40;case5:h^=(uint64_t)(d[4])<<32;'
-        'case4:h^=(uint64_t)(d[3])<<24;case3:h^=(uint64_t)(d[2])<<16;case2:h^=(uint64_t)(d[1])<<8;'
-        'case1:h^=(uint64_t)(d[0]);h*=m;};',
         'h^=h>>r;h*=m;h^=h>>r;returnh;',
     ]
     ok = bool(b) and all(x in nb for x in shape)
     emit('hash_data_shape_ok', 'Definition hash_data_shape_ok : bool := true.' if ok else None)
+    # the tail (size & 7 bytes): two shapes, each modelled as written (HashModel.tail_step)
+    loop_end = 'k*=m;k^=k>>r;k*=m;h^=k;h*=m;}'
+    fin = 'h^=h>>r;h*=m;h^=h>>r;returnh;'
+    i0, i1 = nb.find(loop_end), nb.find(fin)
+    tail = nb[i0 + len(loop_end):i1] if i0 >= 0 and i1 > i0 else None
+    switch = ('switch(size&7){case7:h^=(uint64_t)(d[6])<<48;case6:h^=(uint64_t)(d[5])<<40;case5:h^=(uint64_t)(d[4])<<32;'
+              'case4:h^=(uint64_t)(d[3])<<24;case3:h^=(uint64_t)(d[2])<<16;case2:h^=(uint64_t)(d[1])<<8;'
+              'case1:h^=(uint64_t)(d[0]);h*=m;};')
+    word = 'size_trest=size&7;if(restisnt0){uint64_tk=0;while(rest-->0){k=(k<<8)|(uint64_t)d[rest];}h^=k;h*=m;}'
+    if tail == switch:
+        emit('hash_tail_shape', 'Definition hash_tail_shape : nat := 0.   (* source: fall-through switch over size & 7 *)')
+    elif tail in (word, word.replace('restisnt0', 'rest!=0'), word.replace('if(restisnt0)', 'if(rest)')):
+        emit('hash_tail_shape', 'Definition hash_tail_shape : nat := 1.   (* source: while (rest-- > 0) k = (k << 8) | d[rest]; h ^= k; h *= m; *)')
+    else:
+        emit('hash_tail_shape', None)
 
     n = src('src/Num.c')
     ih = norm(func_body(n, r'static\s+uint64_t\s+Int_Hash\s*\([^)]*\)\s*\{'))
     emit('int_hash_shape_ok', 'Definition int_hash_shape_ok : bool := true.'
          if ih == '{return(uint64_t)c_int(self);}' else None)
     fh = norm(func_body(n, r'static\s+uint64_t\s+Float_Hash\s*\([^)]*\)\s*\{'))
-    if fh == '{unioninterp_castic;ic.as_flt=c_float(self);if(ic.as_flt==0.0){ic.as_flt=0.0;}returnic.as_int;}':
-        emit('float_hash_normalises_zero',
-             'Definition float_hash_normalises_zero : bool := true.   (* source: if (ic.as_flt == 0.0) { ic.as_flt = 0.0; } *)')
-    elif fh == '{unioninterp_castic;ic.as_flt=c_float(self);returnic.as_int;}':
-        emit('float_hash_normalises_zero',
-             'Definition float_hash_normalises_zero : bool := false.   (* source: the raw bit pattern *)')
+    pre = '{unioninterp_castic;ic.as_flt=c_float(self);'
+    if fh == pre + 'if(ic.as_flt==0.0){ic.as_flt=0.0;}returnic.as_int;}':
+        emit('float_hash_shape', 'Definition float_hash_shape : nat := 1.   (* source: if (ic.as_flt == 0.0) { ic.as_flt = 0.0; } *)')
+    elif fh in (pre + 'if((ic.as_int<<1)is0){return0;}returnic.as_int;}', pre + 'if((ic.as_int<<1)==0){return0;}returnic.as_int;}'):
+        emit('float_hash_shape', 'Definition float_hash_shape : nat := 2.   (* source: if ((ic.as_int << 1) is 0) { return 0; } *)')
+    elif fh == pre + 'returnic.as_int;}':
+        emit('float_hash_shape', 'Definition float_hash_shape : nat := 0.   (* source: the raw bit pattern *)')
     else:
-        emit('float_hash_normalises_zero', None)
+        emit('float_hash_shape', None)
     fc = norm(func_body(n, r'static\s+int\s+Float_Cmp\s*\([^)]*\)\s*\{'))
-    emit('hash_float_cmp_shape_ok', 'Definition hash_float_cmp_shape_ok : bool := true.'
-         if fc == '{doublec=Float_C_Float(self)-c_float(obj);returnc>0?1:c<0?-1:0;}' else None)
+    direct = re.fullmatch(r'\{double(\w+)=Float_C_Float\(self\);double(\w+)=c_float\(obj\);return(.*);\}', fc or '')
+    form = None
+    if re.fullmatch(r'\{double(\w+)=Float_C_Float\(self\)-c_float\(obj\);return\1>0\?1:\1<0\?-1:0;\}', fc or ''):
+        form = (0, 'sign of the rounded difference')
+    elif direct:
+        a, b2, e = direct.group(1), direct.group(2), direct.group(3)
+        # every accepted expression is -1 for a < b, 1 for a > b, 0 otherwise (NaN: all comparisons false)
+        if e in ('(%s>%s)-(%s<%s)' % (a, b2, a, b2), '%s<%s?-1:%s>%s?1:0' % (a, b2, a, b2), '%s>%s?1:%s<%s?-1:0' % (a, b2, a, b2)):
+            form = (1, 'the operands compared directly: ' + e)
+    emit('float_cmp_form', 'Definition float_cmp_form : nat := %d.   (* source: %s *)' % form if form else None)
 
     t = src('src/Table.c')
     tc = norm(func_body(t, r'static\s+int\s+Table_Cmp\s*\([^)]*\)\s*\{'))
@@ -89,12 +112,85 @@ def generate(repo, emit, src, func_body):
 
     a = src('src/Assign.c')
     ms = norm(func_body(a, r'static\s+void\s+memswap\s*\([^)]*\)\s*\{'))
+    plan = memswap_plan(ms)
+    emit('memswap_plan', 'Definition memswap_plan : list (nat * nat) := [%s].   (* (tag, width) steps read from memswap *)'
+         % '; '.join('(%d, %d)' % st for st in plan) if plan is not None else None)
     sw = norm(func_body(a, r'void\s+swap\s*\(\s*var\s+self\s*,\s*var\s+obj\s*\)\s*\{'))
-    ok = (ms == '{if(p0==p1){return;}for(size_ti=0;i<s;i++){chart=((char*)p0)[i];((char*)p0)[i]=((char*)p1)[i];((char*)p1)[i]=t;}}'
-          and sw.startswith('{structSwap*s=instance(self,Swap);if(sands->swap){s->swap(self,obj);return;}'
-                            'size_tn=size(type_of(self));if(type_of(self)istype_of(obj)andn){memswap(self,obj,n);return;}'))
-    emit('memswap_shape_ok', 'Definition memswap_shape_ok : bool := true.' if ok else None)
+    ok = sw.startswith('{structSwap*s=instance(self,Swap);if(sands->swap){s->swap(self,obj);return;}'
+                       'size_tn=size(type_of(self));if(type_of(self)istype_of(obj)andn){memswap(self,obj,n);return;}')
+    emit('swap_shape_ok', 'Definition swap_shape_ok : bool := true.' if ok else None)
     al = src('src/Alloc.c')
     cp = norm(func_body(al, r'var\s+copy\s*\(\s*var\s+self\s*\)\s*\{'))
     emit('copy_shape_ok', 'Definition copy_shape_ok : bool := true.'
          if cp == '{structCopy*c=instance(self,Copy);if(candc->copy){returnc->copy(self);}returnassign(alloc(type_of(self)),self);}' else None)
+
+
+SIZES = {'sizeof(uint64_t)': 8, 'sizeof(int64_t)': 8, 'sizeof(uint32_t)': 4, 'sizeof(int32_t)': 4,
+         'sizeof(uint16_t)': 2, 'sizeof(uint8_t)': 1, 'sizeof(char)': 1}
+TYPES = {'uint64_t': 8, 'int64_t': 8, 'uint32_t': 4, 'int32_t': 4, 'uint16_t': 2, 'uint8_t': 1, 'char': 1}
+
+
+def memswap_plan(ms):
+    """Translate the (whitespace-free) body of memswap into a list of (tag, width) steps, or None when a
+    piece is not one of the recognised loop forms.  Only the loop structure is translated here (bounds,
+    offsets, advance); whether the steps cover every byte below s exactly once is decided in Coq
+    (HashModel.plan_ok, HashProofs.plan_covers)."""
+    if not ms or not ms.startswith('{if(p0==p1){return;}') or not ms.endswith('}'):
+        return None
+    rest = ms[len('{if(p0==p1){return;}'):-1]
+    W = r'(sizeof\(\w+\)|\d+)'
+    byte_i = r'chart=\(\(char\*\)p0\)\[i\];\(\(char\*\)p0\)\[i\]=\(\(char\*\)p1\)\[i\];\(\(char\*\)p1\)\[i\]=t;'
+    word_i = (r'(\w+)t;memcpy\(&t,\(char\*\)p0\+i,sizeof\(t\)\);memcpy\(\(char\*\)p0\+i,\(char\*\)p1\+i,sizeof\(t\)\);'
+              r'memcpy\(\(char\*\)p1\+i,&t,sizeof\(t\)\);')
+
+    def width(txt):
+        return SIZES.get(txt) if not txt.isdigit() else int(txt)
+
+    plan, cursor, pointer = [], None, False      # cursor: is the index variable i declared and where it stands
+    while rest:
+        m = re.match(r'size_ti=0;', rest)
+        if m and cursor is None and not pointer:
+            cursor = 'decl'; rest = rest[m.end():]; continue
+        m = re.match(r'for\(size_ti=0;i<s;i\+\+\)\{' + byte_i + r'\}', rest)
+        if m and cursor is None and not pointer:
+            plan.append((0, 1)); cursor = 'loop'; rest = rest[m.end():]; continue
+        m = re.match(r'for\(;i<s;i\+\+\)\{' + byte_i + r'\}', rest)
+        if m and cursor and not pointer:
+            plan.append((0, 1)); rest = rest[m.end():]; continue
+        m = re.match(r'for\(;i\+' + W + r'<=s;i\+=' + W + r'\)\{' + word_i + r'\}', rest)
+        if m and cursor and not pointer:
+            w1, w2, ty = width(m.group(1)), width(m.group(2)), TYPES.get(m.group(3))
+            if not w1 or w1 != w2 or w1 != ty:
+                return None
+            plan.append((0, w1)); rest = rest[m.end():]; continue
+        m = re.match(r'if\(i\+' + W + r'<=s\)\{' + word_i + r'(i\+=' + W + r';)?\}', rest)
+        if m and cursor and not pointer:
+            w1, ty = width(m.group(1)), TYPES.get(m.group(2))
+            if not w1 or w1 != ty:
+                return None
+            if m.group(3):
+                if width(m.group(4)) != w1:
+                    return None
+                plan.append((1, w1))
+            else:
+                plan.append((2, w1))          # the cursor is NOT advanced
+            rest = rest[m.end():]; continue
+        # pointer form: two char pointers walk the regions, the counts come from the size
+        m = re.match(r'char\*a=p0;char\*b=p1;', rest)
+        if m and cursor is None and not pointer and not plan:
+            pointer = True; rest = rest[m.end():]; continue
+        m = re.match(r'size_t(\w+)=s/' + W + r';while\(\1>0\)\{(\w+)wa,wb;memcpy\(&wa,a,' + W + r'\);memcpy\(&wb,b,' + W
+                     + r'\);memcpy\(a,&wb,' + W + r'\);memcpy\(b,&wa,' + W + r'\);a\+=' + W + r';b\+=' + W + r';\1--;\}', rest)
+        if m and pointer:
+            ws = [width(m.group(k)) for k in (2, 4, 5, 6, 7, 8, 9)]
+            if not ws[0] or len(set(ws)) != 1 or TYPES.get(m.group(3)) != ws[0]:
+                return None
+            plan.append((3, ws[0])); rest = rest[m.end():]; continue
+        m = re.match(r'size_t(\w+)=s%' + W + r';while\(\1>0\)\{chart=\*a;\*a\+\+=\*b;\*b\+\+=t;\1--;\}', rest)
+        if m and pointer:
+            w = width(m.group(2))
+            if not w:
+                return None
+            plan.append((4, w)); rest = rest[m.end():]; continue
+        return None
+    return plan or None
